@@ -63,7 +63,8 @@ def program(is_async=True):
         # call of f0 goes through the whole group
         {"t": "require", "cid": 6, "args": ["x"], "lam": False, "flavor": fl, "err": {"form": "default"}},
         {"t": "snapshot", "sid": 1, "name": "s1", "args": ["x"], "flavor": fl, "lam": False},
-        {"t": "ensure", "cid": 2, "args": ["x", "result"], "lam": False, "flavor": fl, "err": {"form": "default"}}])
+        # the postcondition reads OLD: it holds only if OLD.s1 is the object THIS call captured (see truthfn)
+        {"t": "ensure", "cid": 2, "args": ["x", "result", "OLD"], "lam": False, "flavor": fl, "err": {"form": "default"}}])
     m = f("m", "method", [{"t": "require", "cid": 3, "args": ["x"], "lam": False, "flavor": fl, "err": {"form": "default"}}])
     n = f("n", "method", [{"t": "ensure", "cid": 4, "args": ["x"], "lam": False, "flavor": fl, "err": {"form": "default"}}])
     init = {"name": "__init__", "kind": "init", "async": False, "params": ["x", "y"], "defaults": {"x": "None", "y": "None"},
@@ -101,8 +102,18 @@ def truthfn(task_truth):
     """Truth depends on who calls: the argument label 'a:t<i>' or (for invariants) the current task."""
     def tf(run, cid, kw):
         ti = getattr(run.tl, "task", None)
+        if cid == 2 and "OLD" in kw:
+            mine = run.task_caps.get(ti)
+            if mine is not None and getattr(kw["OLD"], "s1", None) is not mine:
+                run.event(("foreign-OLD", ti))
+                return "F"  # the call sees a value captured by another call in flight: its verdict changes
         return task_truth.get(ti, {}).get(cid, "T")
     return tf
+
+
+def _note_capture(run, val):
+    run.task_caps[getattr(run.tl, "task", None)] = val
+    return val
 
 
 class Sched:
@@ -127,6 +138,8 @@ def setup_run(loaded, task_truth):
     run.tl = threading.local()
     run.hooks[("truthfn",)] = truthfn(task_truth)
     run.gate_actions = {}
+    run.task_caps = {}
+    run.hooks[("wrapcap", 1)] = _note_capture
     for kind, ident in (("cond", 1), ("cond", 2), ("cond", 3), ("cond", 4), ("cond", 6), ("cap", 1), ("body", "f0"),
                         ("body", "K0.m"), ("body", "K0.n")):
         tag = ("gate", kind, ident)
@@ -285,6 +298,8 @@ def run_thread_schedule(loaded, names, mode, schedule):
         run = vrt.Run(truth={}, event_budget=5000)
         run.tl = threading.local()
         run.hooks[("truthfn",)] = truthfn(task_truth)
+        run.task_caps = {}
+        run.hooks[("wrapcap", 1)] = _note_capture
         V.begin(run, global_=True)
         try:
             ex = RUN.Executor(loaded, run)
